@@ -35,6 +35,8 @@ def owner_of(p: Program, fn: FuncInfo) -> FuncInfo:
                         r = None
                 if isinstance(r, FuncInfo) and r is not f:
                     cal.setdefault(r.fq, set()).add(f.fq)
+        for h_, into_ in getattr(p, "inlined_into", {}).items():
+            cal.setdefault(h_, set()).update(into_)  # a helper inlined at AST level (N8/N9) is still its caller's
         _CALLERS.clear()
         _CALLERS[id(p)] = cal
     cur = fn
